@@ -85,6 +85,8 @@ def case_call(case):
         text = G.grammar_texts(G.GRAM_ARGS)[case["i"]][1]
     elif k == "basic":
         text = G.basic_text(case["h"], case["p"], case["n"])
+        if case.get("files"):      # the same with the file sinks open while the BASIC error is raised
+            setup = [("call", "s0", "c", fn_, 1) for fn_ in ("SetSelectedOutputFileOn", "SetOutputFileOn", "SetLogFileOn", "SetDumpFileOn")]
     elif k == "tiny":
         text = case["s"]
         via = case["as"]
@@ -688,6 +690,7 @@ def bounds(tier):
             ("tiny strings: every string of length <= 2 over %r as input text, database text, RunFile name, LoadDatabase name" % G.TINY_ALPHABET, tiny_cases(2), 8),
             ("database text: mini database, every line deleted (string) / truncated after every line (file)", db_cases("quick"), 4),
             ("truncated BASIC: every prefix of program 1 in USER_PRINT and CALCULATE_VALUES", [c for c in basic_cases() if c["p"] == 0 and c["h"] in ("user_print", "calc")], 8),
+            ("truncated BASIC with the file sinks on: every prefix of program 1 in USER_PUNCH", [dict(c, files=1) for c in basic_cases() if c["p"] == 0 and c["h"] == "user_punch"], 8),
             ("D1: every single deviation of the base inputs %s" % G.QUICK_D1, d1_cases(G.QUICK_D1), 8),
         ]
     return [
@@ -697,6 +700,7 @@ def bounds(tier):
         ("tiny strings: every string of length <= 3 over %r as input text and database text, of length <= 2 as RunFile / LoadDatabase name" % G.TINY_ALPHABET, [c for c in tiny_cases(3) if len(c["s"]) <= 2 or c["as"] in ("str", "db")], 16),
         ("grammar blocks: every keyword x header variant, every (keyword, option) x argument in %r" % G.GRAM_ARGS, gram_cases(), 16),
         ("truncated BASIC: every prefix of %d programs in 4 hosts" % len(G.BASIC_PROGRAMS), basic_cases(), 16),
+        ("truncated BASIC with the file sinks on: every prefix of %d programs in USER_PUNCH and RATES" % len(G.BASIC_PROGRAMS), [dict(c, files=1) for c in basic_cases() if c["h"] in ("user_punch", "rates")], 16),
         ("D1: every single deviation of all %d base inputs (RunString)" % len(G.BASES), d1_cases(G.BASES), 16),
         ("D1 via RunFile: every line deletion and every truncation after a line of all base inputs", [dict(c, via="file") for c in d1_cases(G.BASES) if c["e"][0] in ("dl", "tl")], 16),
         ("database text D1: every single deviation of the mini database (string; file without replacements); phreeqc.dat every line deleted, truncated every 997 bytes", db_cases("thorough"), 8),
